@@ -121,6 +121,7 @@ func scenario(r *rand.Rand, o *hout.Out, idx int, store *memory.Storage, startSe
 	// slow outgoing handler
 	h.HandleOutgoing(simplefixgo.AllMsgTypes, func(simplefixgo.SendingMessage) bool { ss.jitter(); return true })
 	var got [][]byte
+	var gotAt []time.Time // when each message was seen leaving
 	var gmu sync.Mutex
 	done := make(chan struct{})
 	lag := r.Intn(3) == 0   // a writer slower than the senders: queued messages wait in the outgoing buffer
@@ -135,6 +136,7 @@ func scenario(r *rand.Rand, o *hout.Out, idx int, store *memory.Storage, startSe
 				}
 				gmu.Lock()
 				got = append(got, m)
+				gotAt = append(gotAt, time.Now().UTC())
 				gmu.Unlock()
 			case <-done:
 				return
@@ -153,7 +155,10 @@ func scenario(r *rand.Rand, o *hout.Out, idx int, store *memory.Storage, startSe
 	} else {
 		h.ServeIncoming(frame("35=A\x0149=SRV\x0156=CLI\x0134=1\x0152=20240101-00:00:00.000\x0198=0\x01108=1\x01"))
 	}
-	time.Sleep(5 * time.Millisecond)
+	// the senders start once the session is logged on (however long a loaded machine takes to dispatch the Logon)
+	for dl := time.Now().Add(20 * time.Second); !s.IsLogged() && time.Now().Before(dl); {
+		time.Sleep(time.Millisecond)
+	}
 	var wg sync.WaitGroup
 	for t := 0; t < threads; t++ {
 		wg.Add(1)
@@ -215,8 +220,13 @@ func scenario(r *rand.Rand, o *hout.Out, idx int, store *memory.Storage, startSe
 		}
 		st := field(m, "52")
 		tm, perr := time.Parse("20060102-15:04:05.000", st)
-		if !timeRe.MatchString(st) || perr != nil || now.Sub(tm) > 10*time.Second || tm.Sub(now) > 2*time.Second {
-			o.Fail("C05", "bad-sending-time", fmt.Sprintf("52=%q at %v", st, now))
+		// "taken at send time": not later than the moment the message was seen leaving, and not long before it
+		seen := now
+		if i < len(gotAt) {
+			seen = gotAt[i]
+		}
+		if !timeRe.MatchString(st) || perr != nil || seen.Sub(tm) > 10*time.Second || tm.Sub(seen) > 2*time.Second {
+			o.Fail("C05", "bad-sending-time", fmt.Sprintf("52=%q, seen leaving at %v", st, seen))
 			break
 		}
 	}
